@@ -3,7 +3,7 @@
 import json, os, subprocess, sys
 ROOT = os.path.dirname(os.path.dirname(os.path.abspath(__file__)))
 sys.path.insert(0, ROOT)
-from props import PROPS, HOOK_COMMITS, PENDING
+from props import CLAIMED as PROPS, HOOK_COMMITS, PENDING
 
 ids = [json.loads(l)["id"] for l in open(os.path.join(ROOT, "properties.jsonl"))]
 checks = []
